@@ -309,6 +309,14 @@ func runC26(c *Ctx) {
 							continue
 						}
 						for _, pr := range [][2]ssa.Value{{bo.X, bo.Y}, {bo.Y, bo.X}} {
+							// the same witness written want[i] &^ have[i] != 0
+							if an, ok := pr[0].(*ssa.BinOp); ok && an.Op == token.AND_NOT && isZeroConst(pr[1]) {
+								iw, _ := loadOf(an.X).(*ssa.IndexAddr)
+								ih, _ := loadOf(an.Y).(*ssa.IndexAddr)
+								if iw != nil && ih != nil && iw.X == want && ih.X == have && iw.Index == ih.Index {
+									okW = true
+								}
+							}
 							and, ok := pr[0].(*ssa.BinOp)
 							if !ok || and.Op != token.AND {
 								continue
